@@ -31,7 +31,9 @@ Series == JsonDeserialize(IOEnv.C10_SERIES)
 CONSTANTS NF,              \* frames 0..NF-1 are used (NF <= Series.nf)
           Limits, Fits,    \* angle-limit classes {"pi","low","inf"}, circle fits {"dlite","taubinSVD"}
           Methods, BModes, \* solve_stress: method {"default","lsq_linear","lsq","fix_stress"}, b_matrix {"static","velocity"}
-          PressuresKeyed   \* FALSE: `self.pressures = <list>` (the code as it is); TRUE: `self.pressures[when] = <list>`
+          PressuresKeyed,  \* FALSE: `self.pressures = <list>` (the code as it is); TRUE: `self.pressures[when] = <list>`
+          ExcludedReset    \* FALSE: solve leaves the mesh edges of excluded interfaces untouched (the code as it is);
+                           \* TRUE: solve resets them to 0 (proposed repair of the stale-tension defect)
 
 VARIABLES fmat,      \* [t -> NoFM | [has, limit, fit, shrunk]]      ForSys.force_matrices
           pmat,      \* [t -> NoTab | Tab(tension snapshot)]          ForSys.pressure_matrices (rhs uses BigEdge.tension at build time)
@@ -123,7 +125,8 @@ SolveStressPost(t, m, b) ==
       THEN [Cur EXCEPT !.edgeT[t] = [j \in 1..NB(t) |->
                                        IF Pos(t, j) > 0 /\ Pos(t, j) \notin ex THEN Junk ELSE edgeT[t][j]]]
       ELSE LET new == [j \in 1..NB(t) |->
-                         IF Pos(t, j) > 0 /\ Pos(t, j) \notin ex THEN Sol(t, k, Pos(t, j)) ELSE edgeT[t][j]]
+                         IF Pos(t, j) > 0 /\ Pos(t, j) \notin ex THEN Sol(t, k, Pos(t, j))
+                         ELSE IF Pos(t, j) > 0 /\ ExcludedReset THEN Zero ELSE edgeT[t][j]]
            IN  [Cur EXCEPT !.edgeT[t] = new,
                            !.ifcT[t] = new,
                            !.forces[t] = Tab([i \in 1..NI(t) |-> IF i \in ex THEN MinusOne ELSE Sol(t, k, i)]),
